@@ -14,7 +14,9 @@ G3 = np.array([0.5, -1.0, 2.0])
 
 # ----------------------------------------------------------------------------- dropout
 def dropout_events():
-    return ["T", "E", "Fb"] + [f"F{m}" for m in range(8)]
+    return ["T", "E", "Fb", "P"] + [f"F{m}" for m in range(8)]      # P: the user re-assigns layer.p (alternates between p and ALT_P[p])
+
+ALT_P = {0.0: 0.5, 0.3: 0.75, 0.5: 0.2, 0.75: 0.3, 1.0: 0.5}
 
 def run_dropout(p, hist):
     """The statement fixes the distribution (each element dropped independently with probability p, survivors scaled by exactly
@@ -27,12 +29,16 @@ def run_dropout(p, hist):
     training = True
     viols = []
     conv = None
-    pending = []          # (x, y, keep, prefix): differentiated only after the whole history ran (mask of THAT forward)
+    pending = []          # (x, y, keep, p at that time, prefix): differentiated only after the whole history ran
+    p0 = p
     for i, e in enumerate(hist):
         prefix = hist[: i + 1]
         def v(kind, detail): viols.append((kind, detail, prefix))
         if e == "T": L.train(); training = True
         elif e == "E": L.eval(); training = False
+        elif e == "P":
+            p = ALT_P[p0] if p == p0 else p0          # the drop probability is an attribute of the layer: the current value counts
+            L.p = p; conv = None
         else:
             if e == "Fb": bits, u = None, [p, p, p]
             else:
@@ -69,7 +75,7 @@ def run_dropout(p, hist):
                         x2 = sg.Tensor(X3.copy(), requires_grad=True)
                         with randsrc.controlled(u=u):
                             y2 = L(x2)
-                        pending.append((x2, y2, keep, prefix))
+                        pending.append((x2, y2, keep, p, prefix))
                         try:
                             y.backward(sg.Tensor(G3.copy()))
                             gexp = G3 * np.array(keep) / (1 - p) if p < 1 else np.zeros(3)
@@ -85,7 +91,7 @@ def run_dropout(p, hist):
                         if not any(np.isclose(yd[j], o, rtol=1e-14, atol=0) for o in ok):
                             v("dropout:training-output", f"boundary u=p={p}: element {j} = {yd[j]}")
         if viols: return viols, i + 1
-    for (x2, y2, keep, prefix) in pending:
+    for (x2, y2, keep, p, prefix) in pending:
         try:
             y2.backward(sg.Tensor(G3.copy()))
             gexp = G3 * np.array(keep) / (1 - p) if p < 1 else np.zeros(3)
@@ -260,7 +266,7 @@ def run(tier, seed):
     nd = 4 * (11 ** (dd + 1) - 1) // 10; nb = len(cfgs) * ((4 ** (bd + 1) - 1) // 3 + (4 ** bd - 1) // 3)
     cov = {"states": nd + nb, "transitions": nd + nb - 4 - len(cfgs), "traces_validated_against_impl": r["evaluations"],
            "evaluations": r["evaluations"], "distinct_nontrivial": r["distinct_nontrivial"], "samples": r["samples"], "exhaustive": True,
-           "rule": f"Dropout p in {{0,.3,.5,.75,1}} x ALL {11 ** dd} histories of length {dd} over {{train, eval, forward with each of the 8 "
+           "rule": f"Dropout p in {{0,.3,.5,.75,1}} x ALL {len(dropout_events()) ** dd} histories of length {dd} over {{train, eval, re-assign layer.p, forward with each of the 8 "
                    f"keep/drop answer vectors, forward at the boundary u=p}}; BatchNorm: {len(cfgs)} configurations (momentum {{.1,.5,1,0,None}} x "
                    f"affine x track_running_stats x input rank 2/3/4) x ALL {4 ** bd} histories of length {bd} over {{train, eval, forward(A: 2 "
                    "samples, input requires grad), forward(B: 3 samples, plain input), for rank >= 3 also forward(C: 1 sample, under no_grad) with histories one shorter}} in lock-step with torch.nn.BatchNorm1d/2d (float64; float32 layers one level shallower, "
